@@ -677,3 +677,104 @@ func H_C03_no_rule_after_ruled_call() {
 	vAssert(after == before, "C03 a call without a rule for a key answers the same before and after calls that required that key")
 	vReach("end")
 }
+
+// fields whose whole rule text is the single word required (no second rule, no message), and the variants
+// that differ from it by blanks or an empty item: nil / empty non-nil / populated collections, pointers, scalars
+type vSoleReq struct {
+	S  []int          `valid:"required"`
+	M  map[string]int `valid:"required"`
+	A0 [0]int         `valid:"required"`
+	P  *int           `valid:"required"`
+	T  string         `valid:"required"`
+	I  interface{}    `valid:"required"`
+	L  []string       `valid:"required,"`
+	B  []byte         `valid:",required"`
+	N  map[int]*vIn   `valid:"required"`
+	F  float64        `valid:"required"`
+}
+
+func H_C03_sole_required() {
+	vUNoFail = true
+	known := vGlobalRules()
+	o := &vSoleReq{T: vStr("T"), F: vndFloat64("F")}
+	switch vndChoice("S", 3) {
+	case 1:
+		o.S = []int{}
+	case 2:
+		o.S = []int{0}
+	}
+	switch vndChoice("M", 3) {
+	case 1:
+		o.M = map[string]int{}
+	case 2:
+		o.M = map[string]int{"": 0}
+	}
+	if vndBool("P") {
+		z := 0
+		o.P = &z
+	}
+	switch vndChoice("I", 3) {
+	case 1:
+		o.I = []int{}
+	case 2:
+		o.I = 0
+	}
+	switch vndChoice("LB", 3) {
+	case 1:
+		o.L, o.B = []string{}, []byte{}
+	case 2:
+		o.L, o.B = []string{""}, []byte{0}
+	}
+	if vndBool("N") {
+		o.N = map[int]*vIn{}
+	}
+	err := Struct(o)
+	r := vNewRef()
+	r.global = known
+	r.top(o)
+	vCheckAgainstRef("C03 fields whose only rule is required", err, r)
+	vReach("end")
+}
+
+// a required pointer field that points into the object being validated (first / second element of its
+// first, untagged field; the object itself): what stands behind it is validated like any other sub-object
+type vSlot struct {
+	Name string `valid:"required"`
+	N    int
+}
+
+type vRing struct {
+	Slots [2]vSlot
+	Cur   *vSlot `valid:"required"`
+	Alt   *vSlot `valid:"exist"`
+}
+
+type vSelfFirst struct {
+	In  vSlot
+	Own *vSlot `valid:"required"`
+}
+
+func H_C03_required_behind_interior_pointer() {
+	vUNoFail = true
+	known := vGlobalRules()
+	var src interface{}
+	if vndBool("ring") {
+		r := &vRing{}
+		r.Slots[0], r.Slots[1] = vSlot{Name: vStr("n0"), N: 1}, vSlot{Name: vStr("n1"), N: 2}
+		r.Cur = &r.Slots[vndChoice("cur", 2)]
+		if vndBool("alt") {
+			r.Alt = &r.Slots[vndChoice("altIdx", 2)]
+		}
+		src = r
+	} else {
+		s := &vSelfFirst{In: vSlot{Name: vStr("n"), N: 1}}
+		s.Own = &s.In
+		src = s
+	}
+	err := Struct(src)
+	ref := vNewRef()
+	ref.global = known
+	ref.top(src)
+	vCheckAgainstRef("C03 required pointer into the object itself", err, ref)
+	vReach("end")
+}
